@@ -534,9 +534,45 @@ func (h *hand) views() {
 }
 
 // hop tells the model to pass its state through the JSON round trip as well.
-func (h *hand) hop() {
+// hop: a state save / restore point.  kind "" = model only (the implementation keeps its long-lived
+// in-memory game; hands run with the backend twin use this, so that the twin is compared with a game
+// that was never rebuilt); "json" = the in-memory game is REPLACED by a game rebuilt from the JSON of
+// its state (NewGameFromState); "load" = the JSON of the state is loaded back into the SAME game
+// object (Game.LoadState).  In all three the model applies `Game.hop`; every monitor and the
+// correspondence then judge the rebuilt game like the original.
+func (h *hand) hop(kind string) {
 	if h.dead {
 		return
 	}
-	h.o.Emit("hop", "ok")
+	line := "hop"
+	if kind != "" {
+		line = "hop " + kind
+	}
+	obs := "ok"
+	if kind == "json" || kind == "load" {
+		_, pan := safely(func() error {
+			c := cloneJSON(h.g.GetState())
+			if c == nil {
+				obs = "err"
+				return nil
+			}
+			if kind == "json" {
+				h.g = pokerface.NewPokerFace().NewGameFromState(c)
+				return nil
+			}
+			if err := h.g.LoadState(c); err != nil {
+				obs = "err"
+			}
+			return nil
+		})
+		if pan {
+			obs = "panic"
+		}
+		h.o.Count("engine.hop_" + kind)
+	}
+	h.o.Emit(line, obs)
+	if obs != "ok" {
+		h.o.Violate("C07", "resume_accepts", "restoring the game from the JSON of its own state failed ("+obs+")")
+		h.dead = true
+	}
 }
